@@ -44,6 +44,8 @@ func main() {
 		err = c15Child(*replay, *out, *n)
 	case "c10":
 		err = c10Main(*seed, *n, *out)
+	case "c16":
+		err = c16Main(*seed, *n, *out)
 	case "c13race":
 		err = c13Race(*seed, *n)
 	case "c13":
